@@ -15,6 +15,8 @@ from .common import *
 from . import pitmask as pm
 from . import c04_net as cn
 from . import c04_impl as ci
+from . import c04_gen as cg
+from .c04_gen import regenerate      # setup.sh regenerates Gen/PitCostGen.v through this name
 
 ORDER = ['params', 'params_no_bias', 'ops', 'ops_no_bias', 'gap8_latency']     # = all_specs of Model/PitCost.v
 REL_CONT = 2.0 ** -17      # continuous cost: float32 sums of theta * norm (non-dyadic constants 1/3, 1/5 ...)
@@ -242,7 +244,9 @@ def _replay_dict(o):
 
 def run(ctx):
     torch = setup_torch()
+    rej = cg.regenerate(ctx)
     built = ctx.build()
+    cg.note(ctx, built, rej)
     ctx.rule = ('grammar architectures (gen_arch productions + `layer invoked twice` with equal / different output sizes at the two call sites; 1-D causal and 2-D) under PIT; '
                 'cost = one of / a dictionary of params, params_no_bias, ops, ops_no_bias, gap8_latency (2-D); full_cost and discrete_cost-at-construction random; optionally the stem '
                 'excluded by name; channel masks adversarial / dyadic / minimal / one-dead on every trainable alpha (shared maskers once), a binarized (receptive field, dilation) pattern per '
@@ -344,8 +348,10 @@ def run(ctx):
                     ok = ok and Fraction(on, od) == c['K']
                 if not ok:
                     mism.append(({'kcase': c}, {'impl': (ob['k_eff_cont'], ob['k_eff_disc']), 'model': (str(Fraction(kn, kd)), kopt, str(Fraction(on, od)))}))
+            mism += cg.correspond_keff(ctx, [kcases[i] for i in idx], kv)      # generated k_eff / norm constants next to the hand model
             good = [o for o in used if not o['fails']]
             vals = ctx.coq_eval_sharded('nets', ['Plinio.Model.Masks', 'Plinio.Model.PitCost'], '', [coq_case_expr(o) for o in good], shard=12) if good else []
+            mism += cg.correspond(ctx, good, [coq_case_expr(o) for o in good], vals, _replay_dict)      # the model GENERATED from the PIT cost source on this run
             nskip_cont = 0
             for o, v in zip(good, vals):
                 costs, esizes, numel, (dwc_ok, degen, wf) = v
@@ -443,7 +449,9 @@ def run(ctx):
                         'continuous (non-discrete) costs are float32 in the implementation: compared to relative 2^-17, and not compared for 1e30-valued parameters']
 
     if not ctx.violations:          # an open known finding does not excuse a broken proof / model / correspondence
-        if not built:
+        if cg.report_rejected(ctx, built, rej):
+            pass
+        elif not built:
             ctx.violation('proof-broken', {'theorems': [o[0] for o in ctx.obligations if not o[1]], 'log': getattr(ctx, 'broken_log', '')[-3000:]}, 'Props/C04.v no longer checks', no_input=True)
         elif not model_ok:
             ctx.violation('model-eval-broken', {'notes': ctx.notes}, 'the model could not be evaluated', no_input=True)
